@@ -745,7 +745,8 @@ def check(c):
         "alignOKB = AlignOK; alignStep_WFTokens (the token stack of the constrained Viterbi model satisfies wfTokens whenever "
         "the final score is alive: NoSkip, C-type ranges, ef non-decreasing, T < 16 140; renormalisation branch included), "
         "hence model_run_hierarchy without a token-stack hypothesis; word_score_is_acoustic_part_partial (the final "
-        "out-score = max over admissible window-constrained monotone paths of the summed senone+transition scores).  Tie: every alignment the real decoder returned in this run was (1) judged by alignOKB "
+        "out-score = max over admissible window-constrained monotone paths of the summed senone+transition scores) and "
+        "word_score_is_best_segment (each aligned word score = max over path segments across that word's frames).  Tie: every alignment the real decoder returned in this run was (1) judged by alignOKB "
         "on the iterator-API output, (2) recomputed by the model from the dumped first-pass segmentation, dict2pid tables "
         "and token stack and compared entry by entry, (3) its token stack checked against wfTokens/NoSkip, and for a third "
         "of the requests (4) recomputed frame by frame by the step model from the senone scores a hand-stepped second pass "
